@@ -26,7 +26,13 @@ func goDepth() int {
 
 // RunDepth: a plain drain of maxOps MoveNext calls; every callback event is tagged with the stack depth
 // at which it runs, normalised to the smallest depth within the same advance (K2).
-func RunDepth(t *CTerm, maxOps int) string {
+func RunDepth(t *CTerm, maxOps int) string { return RunDepthBy(t, maxOps, false) }
+
+// RunDepthBy: the same driven by MoveNext or by Send(0) (equivalent for the consumer; a different entry
+// point of the runtime).  Besides the per-advance profile, the absolute depth at which an advance starts
+// must not drift from one advance to the next: a drift is appended as DRIFT(+k) and makes the line differ
+// from the model's (whose advances all start from the consumer's frame).
+func RunDepthBy(t *CTerm, maxOps int, bySend bool) string {
 	st := &Store{}
 	type ev struct {
 		name string
@@ -36,8 +42,9 @@ func RunDepth(t *CTerm, maxOps int) string {
 	st.Probe = func(tag string, id int) {
 		evs = append(evs, ev{fmt.Sprintf("%s%d", tag, id), goDepth()})
 	}
-	gen := seq.Start[int](Build(t, st))
+	gen := seq.Start[int](Build(t, st)).(seq.Generator[int])
 	var out []string
+	base, haveBase, drift := 0, false, 0
 	for i := 0; i < maxOps; i++ {
 		evs = evs[:0]
 		res := func() (r string) {
@@ -46,12 +53,24 @@ func RunDepth(t *CTerm, maxOps int) string {
 					r = fmt.Sprintf("PANIC(%v)", p)
 				}
 			}()
+			if bySend && i > 0 { // the first advance by MoveNext: Send on a fresh generator starts it AND sends
+				_, ok := gen.Send(0)
+				return fmt.Sprint(ok)
+			}
 			return fmt.Sprint(gen.MoveNext())
 		}()
 		m := 0
 		for j, e := range evs {
 			if j == 0 || e.d < m {
 				m = e.d
+			}
+		}
+		if len(evs) > 0 {
+			// the first callback of an advance runs a fixed number of frames below the consumer
+			if !haveBase {
+				base, haveBase = evs[0].d, true
+			} else if d := evs[0].d - base; d > drift {
+				drift = d
 			}
 		}
 		var parts []string
@@ -62,6 +81,11 @@ func RunDepth(t *CTerm, maxOps int) string {
 		if res != "true" {
 			break
 		}
+	}
+	if drift > 8 {
+		// the first callbacks of two advances may sit at slightly different depths (different combinators
+		// are entered first); a drift beyond any term-size constant means frames pile up across advances
+		out = append(out, fmt.Sprintf("DRIFT(+%d)@%d", drift, 1000+drift))
 	}
 	return strings.Join(out, " ")
 }
